@@ -226,6 +226,16 @@ func checkRetention(e *Env, c *CommitRec, full []bson.D, d int) *Violation {
 		ts, _ := eventTS(full[i])
 		return now.Sub(time.Unix(int64(ts.T), 0))
 	}
+	// for "was it allowed to remove this event" the library's clock may be ahead of the wall clock: its
+	// timestamp generator keeps the highest second it has ever read (also inside calls that failed)
+	hi := now
+	if e.maxWall.After(hi) {
+		hi = e.maxWall
+	}
+	ageHi := func(i int) time.Duration {
+		ts, _ := eventTS(full[i])
+		return hi.Sub(time.Unix(int64(ts.T), 0))
+	}
 	const tol = 1500 * time.Millisecond
 	if d > 0 {
 		e.probe("retention-trimmed")
@@ -234,8 +244,8 @@ func checkRetention(e *Env, c *CommitRec, full []bson.D, d int) *Violation {
 		if i >= len(full)-minSize {
 			return violation("C08", "retention-removed-protected", "min-size", fmt.Sprintf("commit %d: event %d of %d was removed although the newest %d events are protected", c.Seq, i, len(full), minSize))
 		}
-		if minAge > 0 && age(i) < minAge-tol {
-			return violation("C08", "retention-removed-protected", "min-age", fmt.Sprintf("commit %d: event %d (age %v) was removed although events younger than %v are protected", c.Seq, i, age(i), minAge))
+		if minAge > 0 && ageHi(i) < minAge-tol {
+			return violation("C08", "retention-removed-protected", "min-age", fmt.Sprintf("commit %d: event %d (age %v) was removed although events younger than %v are protected", c.Seq, i, ageHi(i), minAge))
 		}
 	}
 	if d < len(full) {
